@@ -283,6 +283,17 @@ def templates():
     # match scrutinee and value candidates constant
     for sc in (1, 2, 9):
         T.append([L, ("set", "r", ("match", I(sc), [("val", [I(1), I(2)], ("block", [mark(1), I(10)])), ("other", ("block", [mark(2), I(20)]))])), fin(V("r"))])
+    # a constant scrutinee against value arms that mix constants with candidates that have an effect or fail: every candidate
+    # up to the first equal one is evaluated, in order, whatever a folder can decide about the constants
+    EFFC = ("fndecl", "e", [("v", INT)], INT, [mark(1), ("return", V("v"))])
+    Z = ("fndecl", "z", [], INT, [("return", I(0))])
+    for sc in (1, 2, 9):
+        for cands in ([("call", V("e"), [I(7)]), I(2)], [I(2), ("call", V("e"), [I(7)])], [("call", V("e"), [I(2)]), I(2)], [I(1), ("call", V("e"), [I(9)]), I(2)],
+                      [("bin", "div", I(1), ("call", V("z"), [])), I(2)]):
+            T.append([L, EFFC, Z, ("set", "r", ("match", I(sc), [("val", [I(1)], ("block", [mark(5), I(10)])), ("val", cands, ("block", [mark(6), I(20)])),
+                                                                   ("other", ("block", [mark(7), I(30)]))])), fin(V("r"))])
+            T.append([L, EFFC, Z, ("set", "c", I(sc)), ("fndecl", "f", [], ANY, [("return", ("match", V("c"), [("val", cands, ("block", [I(20)])), ("other", ("block", [I(30)]))]))]),
+                      fin(("call", V("f"), []))])
     # captured constants and names re-declared after capture
     T.append([L, ("set", "x", I(5)), ("fndecl", "f", [], INT, [("return", ("bin", "add", V("x"), I(1)))]), ("set", "x", I(100)), fin(("tuple", [("call", V("f"), []), V("x")]))])
     T.append([L, ("set", "x", I(0)), ("fndecl", "f", [("p", INT)], INT, [("if", ("bin", "eq", V("p"), I(0)), ("block", [("return", I(-1))]), None), ("return", ("bin", "div", V("p"), V("p")))]),
